@@ -83,9 +83,9 @@ PAGEISH = sorted({4096 * k - 16 + d for k in (1, 2, 3) for d in (-65, -64, -63, 
                  | {3000, 4097, 4104, 4900, 5000, 5001, 7500, 8176, 8191, 8192, 8193, 9096})
 
 class Slot:
-    __slots__ = ('text', 'kind')   # kind guess: 'I','H','S' (steering only)
-    def __init__(self, text, kind):
-        self.text = text; self.kind = kind
+    __slots__ = ('text', 'kind', 'cap', 'grp')   # kind guess: 'I','H','S'; capacity guess; sharing group (steering only)
+    def __init__(self, text, kind, cap=None, grp=None):
+        self.text = text; self.kind = kind; self.cap = cap if cap is not None else len(text); self.grp = grp
 
 class CaseGen:
     def __init__(self, rng, profile):
@@ -113,6 +113,7 @@ class CaseGen:
         r = self.r
         c = r.weighted([('from_str', 10), ('static', 5), ('with_capacity', 4), ('new', 2), ('char', 1), ('bool', 1),
                         ('collect_chars', 2), ('collect_strs', 1), ('display', 2), ('int', 2)])
+        if self.p.get('steer') and r.chance(1, 4): c = 'with_capacity'
         if c == 'from_str':
             t = gen_text(r, r.pick(PAGEISH)) if self.p.get('large') and r.chance(1, 2) else gen_text(r)
             route = r.pick(['from', 'from', 'string', 'refstring', 'box', 'cowb', 'cowo', 'parse', 'tls', 'utf8', 'collect1'])
@@ -123,8 +124,9 @@ class CaseGen:
         elif c == 'with_capacity':
             n = r.pick([0, 1, 15, 16, 17, 18, 30, 40, 64, 100, 1000]) if not r.chance(1, 6) else r.pick(SIZES_BIG)
             if self.p.get('large') and r.chance(1, 2): n = r.pick(PAGEISH)
+            if self.p.get('steer') and r.chance(1, 2): n = r.pick([64, 100, 128, 200, 1000])
             self.emit(self.mode(), 'with_capacity', n)
-            self.slots.append(Slot(b'', 'H' if 16 < n < (1 << 20) else 'I') if n < (1 << 20) else None)
+            self.slots.append(Slot(b'', 'H' if 16 < n < (1 << 20) else 'I', cap=n) if n < (1 << 20) else None)
         elif c == 'int':
             ty = r.pick(['i8', 'u8', 'i16', 'u16', 'i32', 'u32', 'i64', 'u64', 'isize', 'usize', 'nz_i64', 'nz_u64', 'nz_i32'])
             base = ty[3:] if ty.startswith('nz_') else ty
@@ -170,6 +172,14 @@ class CaseGen:
         c = r.weighted([('push', 8), ('push_str', 8), ('pop', 5), ('remove', 5), ('insert', 5), ('insert_str', 5),
                         ('truncate', 6), ('clear', 2), ('retain', 4), ('reserve', 5), ('shrink_to', 5), ('shrink_to_fit', 2),
                         ('extend_chars', 3), ('extend_strs', 2), ('write_fmt', 2), ('clone', 10), ('clone_from', 3), ('drop', 4)])
+        steer = self.p.get('steer')
+        spare = max(0, (s.cap or 0) - L)
+        shares = s.grp is not None and sum(1 for x in self.slots if x is not None and x.grp == s.grp) > 1
+        if steer and r.chance(1, 3):
+            # states a plain random walk rarely builds: an append into reserved room with an exact size hint, a refused
+            # reservation on a handle that shares its buffer at a shorter length
+            if spare >= 64: c = r.pick(['extend_chars', 'extend_strs', 'push_str', 'insert_str'])
+            elif shares: c = r.pick(['extend_chars', 'reserve', 'push_str', 'shrink_to', 'retain', 'remove', 'insert_str', 'extend_strs'])
         if large and L > 600:
             # the model's retain and pop are quadratic / slow on long texts (they decode from the front): keep them rare here
             if c == 'retain' and not r.chance(1, 5): c = 'shrink_to'
@@ -236,6 +246,7 @@ class CaseGen:
                 n = r.pick([0, 1, 2, max(0, 16 - L), max(0, 17 - L), 8, 30, 100])
                 if large and r.chance(1, 2): n = r.pick([max(0, q - L) for q in PAGEISH] + [4034, 4096, 4097, 5000])
             self.emit(self.mode(), 'reserve', i, n)
+            if n < (1 << 20): s.cap = max(s.cap or 0, L + n); s.grp = None if L + n > (s.cap or 0) else s.grp
         elif c == 'shrink_to':
             n = r.pick([0, L, L + 1, max(0, L - 1), 16, 17, L + L // 2, L + L // 2 + 1, 2 * L, 100]) if not (self.p.get('big_sizes') and r.chance(1, 6)) else r.pick(SIZES_BIG)
             if large and r.chance(2, 3):
@@ -247,7 +258,14 @@ class CaseGen:
         elif c == 'extend_chars':
             cs = [r.pick(ALLCH) for _ in range(r.pick([0, 1, 2, 5, 10, 20]))]
             hint = r.pick([0, len(cs), 2 * len(cs), 16]) if not (self.p.get('big_sizes') and r.chance(1, 5)) else r.pick(SIZES_BIG)
+            if steer and spare >= 64 and r.chance(1, 2):
+                # an exact size hint of 16 or more items, with room for four bytes each when there is that much
+                k = r.pick([16, 17, 20, 24]); k = max(16, min(k, spare // 4))
+                cs = [r.pick(ALLCH) for _ in range(k)]; hint = len(cs)
+            elif steer and shares and r.chance(1, 2):
+                hint = r.pick(SIZES_BIG)
             pa = r.below(len(cs)) if cs and self.p.get('user_panics') and r.chance(1, 3) else -1
+            if steer and len(cs) >= 16 and self.p.get('user_panics') and r.chance(1, 3): pa = 1 + r.below(len(cs) - 1)
             self.emit('plain', 'extend_chars' + r.pick(['', '', ':ref']), i, hint, pa, *cs)
             s.text = t + b''.join(enc(c) for k, c in enumerate(cs) if pa < 0 or k < pa)
         elif c == 'extend_strs':
@@ -264,7 +282,13 @@ class CaseGen:
             stop = ea if ea >= 0 else pa if pa >= 0 else len(ps)
             s.text = t + b''.join(ps[:stop])
         elif c == 'clone':
-            self.emit('plain', 'clone', r.pick(['clone', 'clone', 'fromref', 'tls']), i); self.slots.append(Slot(s.text, s.kind))
+            self.emit('plain', 'clone', r.pick(['clone', 'clone', 'fromref', 'tls']), i)
+            if s.grp is None: s.grp = self.nops
+            self.slots.append(Slot(s.text, s.kind, cap=s.cap, grp=s.grp))
+            if steer and L > 17 and r.chance(1, 2):
+                # handles of one buffer with different lengths: shorten the new one (no copy is made)
+                j = len(self.slots) - 1; n = r.pick([b for b in bs if 0 < b < L] or [0])
+                self.emit(self.mode(), 'truncate', j, n); self.slots[j].text = t[:n]
         elif c == 'clone_from':
             others = [j for j in self.live() if j != i]
             if others:
@@ -310,6 +334,9 @@ PROFILES = {
     # few operations on texts and capacities of a page or more
     'large': dict(steps=[4, 6, 8, 12], large=True, user_panics=True, limit=1 << 20),
     'large_faults': dict(steps=[4, 6, 8], large=True, faults=True, fault_range=8, limit=1 << 20),
+    # states a random walk rarely reaches: sharers of different lengths, appends into reserved room with exact hints
+    'steered': dict(steps=[6, 10, 16], steer=True, big_sizes=True, user_panics=True, bad_indices=True),
+    'steered_faults': dict(steps=[6, 10, 16], steer=True, faults=True, user_panics=True, fault_range=10),
     'faults_hostile': dict(steps=[6, 10, 16], faults=True, bad_indices=True, big_sizes=True, user_panics=True, fault_range=10),
 }
 
